@@ -194,7 +194,30 @@ impl CaseEngine for C32 {
     }
     fn case_timeout_s(&self, _args: &Args) -> u64 {
         // no progress line for this long: a fault point takes milliseconds
-        20
+        60
+    }
+    fn hang_cpu_seconds(&self) -> f64 {
+        15.0
+    }
+    fn max_stuck_cases(&self) -> u64 {
+        // queries that spin after an injected write / resize fault are part of the open finding KF-C32-1: they must
+        // not end the exploration of the other fault points
+        100_000
+    }
+    fn hang_signature(&self, progress: &str, frames: &[String]) -> Option<String> {
+        // the database is unusable after the fault: the faulted query or one of the later ones does not return
+        let first = frames.first()?;
+        if !first.contains("agdb::") {
+            return None;
+        }
+        let flush = progress
+            .split("fault_at_call=")
+            .nth(1)
+            .and_then(|x| x.split_whitespace().next())
+            .and_then(|x| x.parse::<i64>().ok())
+            .map(|k| k >= FLUSH)
+            .unwrap_or(false);
+        Some(format!("{}database_unusable_after_fault:a_query_does_not_return", if flush { "flush_fault:" } else { "" }))
     }
     fn run_case(&self, args: &Args, case: usize, rep: &mut Report, progress: &dyn Fn(&str)) {
         let seed = derive(args.u64("seed", 1), &[tag("C32"), case as u64]);
